@@ -92,12 +92,19 @@ def vclass(vj):
     return (vj["property"], vj["oracle"], vj["observable"])
 
 
-def shrink(machine, case, target_class, max_runs=600):
-    """Delta-debug the op list, then simplify single ops and knobs, keeping the same violation class."""
+def shrink(machine, case, target_class, max_runs=600, max_seconds=60.0):
+    """Delta-debug the op list, then simplify single ops and knobs, keeping the same violation class (bounded in runs and wall time)."""
+    import time as _time
+
     runs = [0]
+    _t0 = _time.time()
+    _orig_max = max_runs
 
     def fails(c):
         runs[0] += 1
+        if _time.time() - _t0 > max_seconds:
+            runs[0] = max(runs[0], _orig_max)  # wall budget used up: stop shrinking, keep what we have
+            return False
         try:
             r = run_case(machine, c)
         except HarnessError:
